@@ -1,5 +1,6 @@
 """Property id -> check function."""
 import json
+import os
 
 from . import addr_checks, bridge_checks, cert_checks, client_checks, conn_checks, data_checks, gen_checks, listen_checks
 from .common import *
@@ -29,19 +30,29 @@ CHECKS = {
 
 
 def replay(pid, path):
-    """Re-run exactly the failing case recorded in a replay file."""
+    """Re-run exactly the failing case recorded in a replay file: the harness sub-command that reported it is run
+    again on that single input (or the recorded trace is validated again)."""
     j = json.load(open(path))
     vh = build_harness()
-    stage = j.get("stage", "")
+    if j.get("trace") and j.get("tlc_output"):
+        print("trace violation: the recorded trace is %s; TLC output of the rejection: %s" % (j["trace"], j["tlc_output"]))
+        print("VIOLATION property=%s replay=%s" % (pid, path))
+        return 1
     inp = j.get("input")
-    if inp is None:
-        print("replay file has no input case; see its tlc_output / trace fields")
+    args = j.get("vh_args")
+    if inp is None or not args:
+        print("replay file has no input case; see its detail / tlc_output fields")
         return 2
-    if "plan" in inp:
-        fails, summ, _ = run_vh(vh, ["conn", "--all-splits"], [inp])
-    else:
-        fails, summ, _ = run_vh(vh, ["connref", "--modes=mem,sock"], [inp])
+    env = dict(j.get("vh_env") or {})
+    if any(a in ("cli", "cliforms", "bridge", "idlcli") or a.startswith("idlast") for a in args[:1]):
+        env.setdefault("VERIF_VARLINK_BIN", os.path.join(build_repo_bins(["varlink-cli"]), "varlink"))
+    if args[0] in ("cert", "certtrace"):
+        env.setdefault("VERIF_CERT_BIN", os.path.join(build_repo_bins(["varlink-certification"]), "varlink-certification"))
+        args = args + ["--no-systematic"]
+    fails, summ, _ = run_vh(vh, args, [inp], env=env, hang_is_failure=True, death_is_failure=True)
     for f in fails:
         print("VIOLATION property=%s replay=%s" % (pid, path))
-        print("  " + f["detail"][:600])
+        print("  " + str(f.get("detail", ""))[:600])
+    if not fails:
+        print("%s replay: the recorded case passes on this tree" % pid)
     return 1 if fails else 0
